@@ -63,6 +63,8 @@ type cCluster struct {
 	applied map[string][]applyEv
 	nApply  atomic.Int64
 
+	lastKey atomic.Value // string: "<db> <key>" of the entry applied most recently (steers the race lane's readers)
+
 	// stalling of raft snapshot persistence on one node (delay injection between Snapshot and Persist)
 	stallMu      sync.Mutex
 	stallNode    string
@@ -106,7 +108,7 @@ func newCluster(ctx *Ctx, withDirs bool, snapT uint64, snapI time.Duration) *cCl
 			// delay injection between a handler's in-place work on a value and its write-back: widens the
 			// window in which an unsynchronised reader on the same node would overlap (harmless when the
 			// command lock is held, as it must be)
-			time.Sleep(150 * time.Microsecond)
+			time.Sleep(400 * time.Microsecond)
 			return
 		}
 		if name == "raft.snap.persist" && len(args) == 1 {
@@ -161,6 +163,9 @@ func newCluster(ctx *Ctx, withDirs bool, snapT uint64, snapI time.Duration) *cCl
 		c.applied[id] = append(c.applied[id], ev)
 		c.mu.Unlock()
 		c.nApply.Add(1)
+		if len(ev.CmdDec) > 1 {
+			c.lastKey.Store(fmt.Sprintf("%d %s", ev.DB, ev.CmdDec[1]))
+		}
 	})
 	return c
 }
@@ -1060,6 +1065,24 @@ func c07History(ctx *Ctx, i int) {
 					case <-stop:
 						return
 					default:
+					}
+					if lk, _ := c.lastKey.Load().(string); lk != "" && rr.Intn(5) != 0 {
+						// read the key the state machines are working on, with every type's reader
+						var db int
+						var key string
+						if n, _ := fmt.Sscanf(lk, "%d ", &db); n == 1 {
+							key = lk[strings.Index(lk, " ")+1:]
+						}
+						if _, _, err := cl.Do("SELECT", strconv.Itoa(db)); err != nil {
+							return
+						}
+						for _, rd := range reads[:5] {
+							if _, _, err := cl.Do(append([]string{rd[0], key}, rd[1:]...)...); err != nil {
+								return // node shut down
+							}
+							ctx.Count("race_lane_background_reads", 1)
+						}
+						continue
 					}
 					if k%16 == 0 {
 						cl.Do("SELECT", strconv.Itoa(c07DBs[rr.Intn(len(c07DBs))]))
